@@ -12,9 +12,11 @@ def recursive_subclasses(cls: Type[T]) -> List[Type[T]]:
     :param cls: The class.
     :return: A list of the classes subclasses without the class itself.
     """
-    return cls.__subclasses__() + [
+    subclasses = cls.__subclasses__() + [
         g for s in cls.__subclasses__() for g in recursive_subclasses(s)
     ]
+    # a class reachable through several inheritance paths is listed once
+    return list(dict.fromkeys(subclasses))
 
 
 @dataclass
